@@ -65,6 +65,27 @@ class Engine(object):
         self.tsolver += time.time() - t0
         return r
 
+    def fresh_solver(self, timeout_ms=None):
+        """A non-incremental solver holding the current path condition and axioms.
+        (z3's incremental push/pop mode uses a much weaker nonlinear core than the
+        one-shot tactic pipeline, so every obligation is posed to a fresh solver.)"""
+        s = z3.Solver()
+        s.set('timeout', timeout_ms or self.branch_timeout_ms)
+        for c in self.pc:
+            s.add(T.to_z3(c))
+        for c in self.axioms:
+            s.add(T.to_z3(c))
+        return s
+
+    def _fresh_check(self, zc):
+        t0 = time.time()
+        self.nqueries += 1
+        s = self.fresh_solver()
+        s.add(zc)
+        r = str(s.check())
+        self.tsolver += time.time() - t0
+        return r
+
     def add_axiom(self, t):
         if t.op == 'true':
             return
@@ -89,7 +110,10 @@ class Engine(object):
             raise Infeasible()
         self.pc.append(cond)
         self.solver.add(T.to_z3(cond))
-        if self._check() == 'unsat':
+        r = self._check()
+        if r == 'unknown':
+            r = self._fresh_check(z3.BoolVal(True))
+        if r == 'unsat':
             self.ninfeasible += 1
             raise Infeasible()
 
@@ -114,7 +138,11 @@ class Engine(object):
         else:
             zc = T.to_z3(cond)
             rt = self._check(zc)
+            if rt == 'unknown':
+                rt = self._fresh_check(zc)
             rf = self._check(z3.Not(zc))
+            if rf == 'unknown':
+                rf = self._fresh_check(z3.Not(zc))
             if rt == 'unknown' or rf == 'unknown':
                 self.unknown_branches += 1
             can_t, can_f = rt != 'unsat', rf != 'unsat'
